@@ -553,7 +553,7 @@ pub fn run(tier: Tier, seed: u64, replay: Option<&std::path::Path>) -> i32 {
     }
     let cases = match tier {
         Tier::Quick => 2400,
-        Tier::Thorough => 10_000,
+        Tier::Thorough => 40_000,
     };
     let out = run_sharded("C03", seed, cases, 150, strategy, run_case);
     let report = Report {
